@@ -12,6 +12,7 @@ func c02Units(tier string) []Unit {
 	var units []Unit
 	single := seqTxnAlphabet(false)
 	full := seqTxnAlphabet(true)
+	sizes := seqTxnAlphabetOver(sizeKeys, false)
 	cfgSets := [][]dbCfg{
 		{cfgRotateAlways, cfgSmall, cfgMemOnly},
 		{cfgMemOnly, cfgRotateAlways, cfgUnbuffered},
@@ -20,6 +21,8 @@ func c02Units(tier string) []Unit {
 		// two entries per memtable and a lazy flusher: Close finds frozen memtables in the queue and newer versions of
 		// the same keys in the active memtable
 		{dbCfg{Mem: 40, Imm: 2, Block: 30, L0: 2, Ratio: 2, SL: 1}, cfgSmall, cfgMemOnly},
+		// for the size plans (largest keys and values): big blocks first, then one entry per table
+		{cfgBigBlocks, cfgRotateAlways, cfgBigBlocks},
 	}
 	// L0TargetNum / LevelRatio stay fixed for a directory
 	for i := range cfgSets {
@@ -42,6 +45,7 @@ func c02Units(tier string) []Unit {
 			{"d4+1reopen/same-key", []txProg{single[0], single[3], single[1]}, 4, 1, []int{0}, false},
 			{"d2+2reopens", single, 2, 2, []int{0}, false},
 			{"dev1/d2+1reopen", []txProg{full[0], full[7]}, 2, 1, []int{0, 1}, false},
+			{"sizes/d2+1reopen", sizes, 2, 1, []int{0}, false},
 		}
 	} else {
 		plans = []plan{
@@ -50,12 +54,20 @@ func c02Units(tier string) []Unit {
 			{"d4+1reopen", single, 4, 1, []int{0}, false},
 			{"dev1/d3+1reopen", single, 3, 1, []int{0, 1}, true},
 			{"dev2/d2+1reopen", single, 2, 1, []int{0, 1, 2}, false},
+			{"sizes/d3+1reopen", sizes, 3, 1, []int{0}, true},
 		}
 	}
 	for _, pl := range plans {
 		for ci, cfgs := range cfgSets {
 			for clock := 0; clock < 3; clock++ {
 				pl, cfgs, clock, ci := pl, cfgs, clock, ci
+				isSizes := len(pl.name) > 5 && pl.name[:5] == "sizes"
+				if isSizes != (ci == 5 || (isSizes && ci == 0)) {
+					continue // the size plans run on configuration sets 0 and 5, the others on 0..4
+				}
+				if isSizes && clock != 0 && tier == "quick" {
+					continue
+				}
 				if tier == "quick" && len(pl.budgets) > 1 && (clock == 2 || ci >= 2) {
 					continue
 				}
